@@ -361,6 +361,19 @@ def c05_4(R):
             else:
                 R.fail([pim.name, "set_remote_window", "sources=" + sources_str(pim, t.args[1])], "congestion controller is told a peer window that is not the received one", where=t.where(), instance="cc-remote-window")
     R.floor("set_remote_window in process_incoming_message", k, 1)
+    # no accepted packet leaves process_incoming_message without its window having been recorded (duplicates and
+    # retransmissions carry window updates too: a zero window on a retransmitted packet must stop the sender)
+    ack = [t for t in pim.calls() if call_matches(t, ("stream_tx_segments::Segments::remove_up_to_ack",))]
+    R.require(len(ack) == 1, "remove_up_to_ack in process_incoming_message (the point after which a packet counts as accepted)")
+    for nm, blocks in (("last_remote_window = hdr.wnd_size", {s.bb for b_, s in census_field_writes(F, "VirtualSocket.last_remote_window") if b_.name == pim.name}),
+                       ("set_remote_window(hdr.wnd_size)", {t.bb for t in pim.calls() if call_matches(t, ("CongestionController::set_remote_window",))})):
+        reach = pim.reachable(ack[0].j["target"], removed_blocks=blocks)
+        bad = [it for it, cls in ret_assignments(pim) if cls.startswith("Ok") and it.bb in reach]
+        if blocks and not bad:
+            R.ok("accepted-packet=>window-recorded", nm, "on every Ok exit after remove_up_to_ack")
+        else:
+            R.fail([pim.name, "Ok-exit-without", nm], "an accepted packet can be processed without recording the window it advertises (%s): the sender keeps using a stale, larger window" % nm,
+                   where=bad[0].where() if bad else pim.where(), witness=path_lines(pim, shortest_path(pim, ack[0].j["target"], [bad[0].bb], removed_blocks=blocks)) if bad else [], instance="accepted-packet=>window-recorded")
 
 
 def fconst(op):
